@@ -348,14 +348,13 @@ Section Contain.
   (* ---- Load ------------------------------------------------------------------------------------------ *)
 
   Record load_hyps (o : options) (a : load_adv) : Prop := {
-    lh_top : la_top a <> TopPanic;          (* rawLoadPackage / rawLoadFile on the argument: outside loadImports' recover *)
     lh_comp : comp_beh_ok (code_dump o) (la_comp a);
     lh_run : run_beh_ok (la_run a) }.
 
   Lemma load_contained : forall n p o a, load_hyps o a -> ~ is_escape (load_model unq n p o a).
   Proof.
-    intros n p o a [Ht Hc Hr] [w Hw]. unfold load_model in Hw.
-    destruct (la_top a) as [nodes| |] eqn:Etop; try discriminate; [|congruence].
+    intros n p o a [Hc Hr] [w Hw]. unfold load_model in Hw.
+    destruct (la_top a) as [nodes| |] eqn:Etop; try discriminate.
     cbv zeta in Hw. set (top := TNode "_" "_" nodes) in *.
     assert (Hraw : raw_tree_ok top) by (right; reflexivity).
     destruct (load_imports_contained n p top (la_files a)) as [Hne Hok].
@@ -441,7 +440,7 @@ Section Contain.
   Theorem load_prefix : forall n pk o a p, load_model unq n pk o a = Err p -> exists st, In (p, st) load_prefixes.
   Proof.
     intros n pk o a p H. unfold load_model in H.
-    destruct (la_top a) as [nodes| |]; [|inversion H; eexists; cbn; eauto|discriminate].
+    destruct (la_top a) as [nodes| |]; [|inversion H; eexists; cbn; eauto|inversion H; eexists; cbn; eauto].
     cbv zeta in H.
     apply bind_err in H as [[_ ->]|(pkgs & _ & H)]; [eexists; cbn; eauto|].
     destruct (negb (tree_dump_ok (tree_dump o) pkgs)); [discriminate|].
